@@ -183,6 +183,58 @@ fn check_text(t: &str) -> Result<(), String> {
     })
 }
 
+/// `Deserialize::deserialize_in_place` (used by derived impls) must leave exactly the input text in the place,
+/// whatever the place held before and however it was stored.
+fn check_in_place(t: &str, bytes: Option<&[u8]>) -> Result<(), String> {
+    guard(|| {
+        let long_static: &'static str = "a static text that is longer than sixteen bytes";
+        let shared = LeanString::from("a heap text shared with another handle, 48 bytes");
+        let places: Vec<(&str, LeanString)> = vec![
+            ("empty", LeanString::new()),
+            ("inline", LeanString::from("old")),
+            ("full inline", LeanString::from("0123456789abcdef")),
+            ("heap", LeanString::from("an old heap text of more than 16 bytes")),
+            ("heap with room", {
+                let mut s = LeanString::with_capacity(200);
+                s.push_str("old text");
+                s
+            }),
+            ("shared heap", shared.clone()),
+            ("static", LeanString::from_static_str(long_static)),
+        ];
+        for (name, mut place) in places {
+            let mut reference = String::from("old String");
+            let (got, want): (Result<(), ValueError>, Result<(), ValueError>) = match bytes {
+                Some(b) => (
+                    Deserialize::deserialize_in_place(BytesDeserializer::new(b), &mut place),
+                    Deserialize::deserialize_in_place(BytesDeserializer::new(b), &mut reference),
+                ),
+                None => (
+                    Deserialize::deserialize_in_place(StrDeserializer::new(t), &mut place),
+                    Deserialize::deserialize_in_place(StrDeserializer::new(t), &mut reference),
+                ),
+            };
+            match (got, want) {
+                (Ok(()), Ok(())) if place == reference.as_str() => {}
+                (Err(_), Err(_)) => {}
+                (g, w) => {
+                    return Err(format!(
+                        "deserialize_in_place into a place holding {name}: LeanString {:?} -> {:?}, String {:?} -> {:?}",
+                        g.map_err(|e| e.to_string()),
+                        place.as_str(),
+                        w.map_err(|e| e.to_string()),
+                        reference
+                    ));
+                }
+            }
+        }
+        if shared != "a heap text shared with another handle, 48 bytes" {
+            return Err("deserialize_in_place into a shared handle changed the other handle".into());
+        }
+        Ok(())
+    })
+}
+
 fn check_json_doc(doc: &str) -> Result<(), String> {
     // any JSON text: LeanString and String accept / reject alike and agree on the text
     guard(|| {
@@ -360,6 +412,12 @@ fn c19(tier: Tier, seed: u64) -> Verdict {
             if let Err(d) = check_text(t) {
                 return (st, Some(viol(json!({"kind": "serde_text", "text": t}), "C19.serde_text", d)));
             }
+            if let Err(d) = check_in_place(t, None) {
+                return (st, Some(viol(json!({"kind": "serde_text", "text": t}), "C19.deserialize_in_place", d)));
+            }
+            if let Err(d) = check_in_place(t, Some(t.as_bytes())) {
+                return (st, Some(viol(json!({"kind": "serde_text", "text": t}), "C19.deserialize_in_place", d)));
+            }
             // the text itself, quoted or not, as a JSON document
             for doc in [format!("\"{t}\""), t.clone()] {
                 if let Err(d) = check_json_doc(&doc) {
@@ -385,6 +443,11 @@ fn c19(tier: Tier, seed: u64) -> Verdict {
             }
             if let Err(d) = check_bytes(b) {
                 return (st, Some(viol(json!({"kind": "serde_bytes", "hex": hex_encode(b)}), "C19.deserialize_bytes", d)));
+            }
+            if b.len() < 24 {
+                if let Err(d) = check_in_place("", Some(b)) {
+                    return (st, Some(viol(json!({"kind": "serde_bytes", "hex": hex_encode(b)}), "C19.deserialize_in_place", d)));
+                }
             }
             st.nontrivial.push(digest(b));
             if b.len() < 2 {
@@ -413,9 +476,15 @@ fn replay(path: &str) -> i32 {
     let case = doc.get("case").cloned().unwrap_or(doc);
     let kind = case.get("kind").and_then(|k| k.as_str()).unwrap_or("");
     let r = match kind {
-        "serde_bytes" => check_bytes(&hex_decode(case["hex"].as_str().unwrap_or(""))),
+        "serde_bytes" => {
+            let b = hex_decode(case["hex"].as_str().unwrap_or(""));
+            check_bytes(&b).and_then(|_| check_in_place("", Some(&b)))
+        }
         "unstructured" => check_unstructured(&hex_decode(case["hex"].as_str().unwrap_or(""))),
-        "serde_text" => check_text(case["text"].as_str().unwrap_or("")),
+        "serde_text" => {
+            let t = case["text"].as_str().unwrap_or("");
+            check_text(t).and_then(|_| check_in_place(t, None)).and_then(|_| check_in_place(t, Some(t.as_bytes())))
+        }
         "json_doc" => check_json_doc(case["doc"].as_str().unwrap_or("")),
         _ => return 2,
     };
